@@ -1440,8 +1440,11 @@ func debugView(spec string) int {
 // only through root: every reference to them is a static call from a function already in the set
 // (the helpers a refactoring extracts out of root).  A frame rule "only root does X" reads
 // "only root or its private helpers do X".
-func (p *Prog) exclusiveHelpers(root *ssa.Function) map[*ssa.Function]bool {
+func (p *Prog) exclusiveHelpers(root *ssa.Function, more ...*ssa.Function) map[*ssa.Function]bool {
 	set := map[*ssa.Function]bool{root: true}
+	for _, m := range more {
+		set[m] = true
+	}
 	// all references to module functions
 	type ref struct {
 		in     *ssa.Function
